@@ -70,6 +70,9 @@ SPECS_Q = [
     ('T2', [['n1/ka=', V1], ['ta/kb=', V1]]),
     ('T2', [[W2, '/ka=', V1], [W2, '/kb=', V1]]),
     ('T4', [['ta/b1/kb=', V1], ['ta/tb/c1/kc=', V1]]),
+    # empty values: 'key=' acts like a bare key line
+    ('T2', [['zz=']]), ('T2', [['n1/kb='], ['n1/kb=', V1]]), ('T2', [[W2, '=']]), ('T2', [['n1/ka=']]),
+    ('T4', [['km='], ['km=', V1]]),
     ('T4', [['ta/tb/', W2, '=', V1]]),
     ('T4', [[W2, '/', W2, '/', W2, '=1']]),
     ('T4', [['ta/b1/', W2, '/kc=', V1]]),
@@ -254,6 +257,9 @@ class C14(P.TextMixin, Harness):
               for t, specs in (SPECS_Q if tier == 'quick' else SPECS_T)]
         for t, specs in SPECS_U:
             us.append({'text': t, 'files': [['specs', specs], ['names', [[h] for h in _holes(TEXTS[t][1])]]]})
+        # ONE ExtendedConfigLoader object serving two loads of the text (overrides apply to both)
+        for t, specs in SPECS_Q[:6] + SPECS_Q[10:12]:
+            us.append({'text': t, 'files': [['specs', specs]], 'same_loader': True})
         return us
 
     def inputs(self, eng, unit):
@@ -273,8 +279,44 @@ class C14(P.TextMixin, Harness):
         sid, struct = TEXTS[unit['text']]
         struct = _inst(struct, inp)
         with common.env_scope(common.all_concrete(inp), {}):
+            if unit.get('same_loader'):
+                return self._same_loader(sid, render(struct), self.specs(unit, inp))
             r = P.run_load(XML[sid], render(struct), overrides=self.specs(unit, inp), url=P.MAIN)
         return self._out(r)
+
+    def _same_loader(self, sid, lines, specs):
+        """addOption for every specifier, then loadFile twice on the same loader object"""
+        import ZConfig
+        from ZConfig import cmdline
+        schema = P.load_schema(XML[sid])
+        outs = []
+        try:
+            loader = cmdline.ExtendedConfigLoader(schema)
+            for sp in specs:
+                loader.addOption(sp)
+        except ZConfig.ConfigurationError as e:
+            return self._out(('reject', type(e).__name__, e))
+        except Exception as e:
+            return ('crash', type(e).__name__)
+        for i in range(2):
+            try:
+                cfg, h = loader.loadFile(common.make_file(lines), P.MAIN)
+                outs.append(self._out(('ok', cfg, h)))
+            except ZConfig.ConfigurationError as e:
+                outs.append(self._out(('reject', type(e).__name__, e)))
+            except Exception as e:
+                outs.append(('crash', type(e).__name__))
+        if outs[0][0] == 'reject' and outs[1][0] == 'reject':
+            return outs[0]
+        if outs[0][0] == 'ok' and outs[1][0] == 'ok':
+            # both loads must give the same tree; report it once (compared with the edited text)
+            from ..core import deep_eq
+            import z3 as _z3
+            same = deep_eq(outs[0], outs[1])
+            if _z3.is_true(_z3.simplify(same)):
+                return outs[0]
+            return ('two-loads-differ', outs[0], outs[1], same)
+        return ('two-loads-differ', outs[0][0], outs[1][0])
 
     def expect(self, unit, inp, real):
         sid, struct = TEXTS[unit['text']]
